@@ -109,7 +109,10 @@ def write_lock(property_id: str, rep: Report) -> None:
 def attach_bounded_witness(rep: Report) -> None:
     """DESIGN §3.8-3: a failed obligation without a replayable counter-model borrows the failing input that the
     bounded contract run of the same property found (if any); otherwise it stays `no-failing-input-found`."""
-    witnesses = [v for v in rep.violations if not v.no_failing_input and "case" in v.replay]
+    from vlib.core import findings_for
+    listed = {f["key"] for f in findings_for(rep.property_id)}
+    # only NEW failing inputs qualify: a case that belongs to a recorded known finding fails on the unchanged tree too and says nothing about this obligation
+    witnesses = [v for v in rep.violations if not v.no_failing_input and "case" in v.replay and v.key not in listed]
     if not witnesses:
         return
     for v in rep.violations:
